@@ -1376,9 +1376,14 @@ class element_if(x12_node):
         if self._fullpath:
             return self._fullpath
         #get enclosing loop
-        parent_path = self.get_parent_segment().parent.get_path()
+        seg_node = self.get_parent_segment()
+        parent_path = seg_node.parent.get_path()
         # add the segment, element, and sub-element path
-        self._fullpath = parent_path + '/' + self.id
+        # use the segment's own path part, which carries the [qualifier] of same-position siblings
+        if self.id.startswith(seg_node.id):
+            self._fullpath = parent_path + '/' + seg_node.path + self.id[len(seg_node.id):]
+        else:
+            self._fullpath = parent_path + '/' + self.id
         return self._fullpath
 
     def get_parent_segment(self):
